@@ -43,7 +43,32 @@ equal to the struct; the failing input needs > 64 KiB) and S75 (C20: the traced
 system-call shape no longer satisfies the premise of `tmp_file_not_loaded`;
 the failing content is a 1-in-262144 hash).
 
-What the misses had in common (and what was changed because of it): the
+Rounds 5 and 6 left the anchored functions alone and changed the glue. What
+those misses had in common: (a) the models are PURE functions but the harnesses
+called each API once on fresh values - memoisation, caches and aliasing only
+show in HISTORIES, so every harness now presents inputs repeatedly and in
+related pairs and judges each call alone against the model; (b) properties are
+stated over configurations, entry points and node kinds, while harnesses used
+one default configuration and the main entry point - configurations, rarely
+used entry points, read-only calls (which must be inert) and both node kinds
+are now dimensions of the generators; (c) two properties needed real
+concurrency (C07 snapshot consistency of a balance query, C14 shared scratch
+in ECmult): concurrent groups compare every concurrent answer with a
+sequentially valid one - run-time checks, the functional models cannot see
+them; (d) sampling is not regression testing: after round 5 a re-run of ALL
+archived seeds (`lib/seedregress.sh`, result in `seeded/REGRESSION.txt`) showed
+4 of 160 earlier seeds no longer caught because later generator changes had
+shifted the random cases; every family that ever caught a seed is now
+SCRIPTED as a fixed prefix of the quick tier and the regression is re-run after
+each round. The rounds also found genuine defects on the unchanged tree
+(section 15: share_factor hang, Field.Normalize carry, custom peers file cap,
+pool Shutdown-before-Run hang and double-Shutdown panic, xpub sign panic) and
+one defect of this framework: `kit.NewRng(seed+1)` produced seed's stream
+shifted by one draw, so "three seeds" were nearly one; seeds other than 1 are
+now scrambled (seed 1 keeps its historical stream) and every check was re-run
+on the new seeds 2 and 3 (one harness hang in C11 found and fixed that way).
+
+What the misses of rounds 1-4 had in common (and what was changed because of it): the
 generators sampled the *valid* region well and the error region shallowly
 around constants that live in the code (retry limits, length bounds, high-s
 boundary, limb boundaries, Latin-1 vs ASCII). Each harness now has a
